@@ -4,465 +4,7 @@ use std::convert::{TryFrom, TryInto};
 verus! {
 global size_of usize == 8;
 //@ include units/common/float.inc.rs
-pub type Int = isize;
-
-// =====================================================================================================
-// MODELS (rule R5)
-// =====================================================================================================
-#[derive(Debug)]
-pub struct LayoutError { }
-pub type LayoutResult<T> = Result<T, LayoutError>;
-impl vstd::std_specs::convert::FromSpecImpl<std::num::TryFromIntError> for LayoutError {
-    open spec fn obeys_from_spec() -> bool { true }
-    open spec fn from_spec(e: std::num::TryFromIntError) -> LayoutError { LayoutError { } }
-}
-impl From<std::num::TryFromIntError> for LayoutError { fn from(e: std::num::TryFromIntError) -> Self { LayoutError { } } }
-pub assume_specification [isize::abs] (x: isize) -> (r: isize) requires x > isize::MIN ensures r == (if x >= 0 { x as int } else { -x });
-pub assume_specification [i64::abs] (x: i64) -> (r: i64) requires x > i64::MIN ensures r == (if x >= 0 { x as int } else { -x });
-/// stand-ins for the prost-generated vlsir message structs (field names and types copied from the generated vlsir.raw.rs / vlsir.utils.rs)
-pub mod proto {
-    use vstd::prelude::*;
-    #[derive(Debug, Clone, Copy)]
-    pub struct Point { pub x: i64, pub y: i64 }
-    impl Point { pub fn new(x: i64, y: i64) -> (r: Self) ensures r.x == x, r.y == y { Self { x, y } } }
-    pub struct Rectangle { pub net: String, pub lower_left: Option<Point>, pub width: i64, pub height: i64 }
-    pub struct Polygon { pub net: String, pub vertices: Vec<Point> }
-    pub struct Path { pub net: String, pub points: Vec<Point>, pub width: i64 }
-    pub struct TextElement { pub string: String, pub loc: Option<Point> }
-    pub struct QualifiedName { pub domain: String, pub name: String }
-    pub mod reference { pub enum To { Local(String), External(super::QualifiedName) } }
-    pub struct Reference { pub to: Option<reference::To> }
-    pub struct Instance { pub name: String, pub cell: Option<Reference>, pub origin_location: Option<Point>, pub reflect_vert: bool, pub rotation_clockwise_degrees: i32 }
-    pub struct Layer { pub number: i64, pub purpose: i64 }
-    pub struct LayerShapes { pub layer: Option<Layer>, pub rectangles: Vec<Rectangle>, pub polygons: Vec<Polygon>, pub paths: Vec<Path> }
-    pub struct Layout { pub name: String, pub shapes: Vec<LayerShapes>, pub instances: Vec<Instance>, pub annotations: Vec<TextElement> }
-    impl Default for LayerShapes { fn default() -> (r: Self) ensures r.layer is None, r.rectangles@.len() == 0, r.polygons@.len() == 0, r.paths@.len() == 0 { LayerShapes { layer: None, rectangles: Vec::new(), polygons: Vec::new(), paths: Vec::new() } } }
-    impl Default for Layout { fn default() -> (r: Self) ensures r.name@.len() == 0, r.shapes@.len() == 0, r.instances@.len() == 0, r.annotations@.len() == 0 { Layout { name: String::new(), shapes: Vec::new(), instances: Vec::new(), annotations: Vec::new() } } }
-    // prost messages derive Default: every field its type's default
-    impl Default for Rectangle { fn default() -> (r: Self) ensures r.lower_left is None, r.width == 0, r.height == 0, r.net@.len() == 0 { Rectangle { net: String::new(), lower_left: None, width: 0, height: 0 } } }
-    impl Default for Polygon { fn default() -> (r: Self) ensures r.vertices@.len() == 0, r.net@.len() == 0 { Polygon { net: String::new(), vertices: Vec::new() } } }
-    impl Default for Path { fn default() -> (r: Self) ensures r.points@.len() == 0, r.width == 0, r.net@.len() == 0 { Path { net: String::new(), points: Vec::new(), width: 0 } } }
-    impl Default for TextElement { fn default() -> (r: Self) ensures r.loc is None, r.string@.len() == 0 { TextElement { string: String::new(), loc: None } } }
-    impl Default for Instance { fn default() -> (r: Self) ensures r.cell is None, r.origin_location is None, !r.reflect_vert, r.rotation_clockwise_degrees == 0, r.name@.len() == 0 { Instance { name: String::new(), cell: None, origin_location: None, reflect_vert: false, rotation_clockwise_degrees: 0 } } }
-}
-/// model of layout21utils::Ptr<T> (opaque shared handle); `read` yields the pointee or a lock-poison error
-pub struct Ptr<T> { pub v: Box<T> }
-impl<T> Ptr<T> {
-    #[verifier::external_body]
-    pub fn read(&self) -> (r: LayoutResult<&T>) ensures r is Ok ==> *r->Ok_0 == *self.v { Ok(&*self.v) }
-}
-impl<T> Clone for Ptr<T> { #[verifier::external_body] fn clone(&self) -> (r: Self) ensures r == *self { unimplemented!() } }
-pub struct Cell { pub name: String }
-//@ item layout21raw/src/geom.rs :: struct Point
-//@   derive Debug, Copy, Clone
-//@ end
-//@ item layout21raw/src/geom.rs :: struct Rect
-//@ end
-//@ item layout21raw/src/geom.rs :: struct Polygon
-//@ end
-//@ item layout21raw/src/geom.rs :: struct Path
-//@ end
-//@ item layout21raw/src/geom.rs :: enum Shape
-//@ end
-//@ item layout21raw/src/data.rs :: struct Instance
-//@ end
-//@ item layout21raw/src/data.rs :: struct TextElement
-//@ end
-/// model of slotmap's LayerKey: an opaque copyable key
-#[derive(Debug, Clone, Copy)]
-pub struct LayerKey { pub id: u64 }
-//@ item layout21raw/src/data.rs :: enum LayerPurpose
-//@ end
-impl Clone for LayerPurpose { #[verifier::external_body] fn clone(&self) -> (r: Self) ensures r == *self { unimplemented!() } }
-//@ item layout21raw/src/data.rs :: struct Element
-//@ end
-//@ item layout21raw/src/data.rs :: struct Layout
-//@ end
-//@ item layout21raw/src/proto.rs :: enum ProtoShape
-//@   sub R4 /enum ProtoShape/ => pub enum ProtoShape
-//@ end
-impl Default for TextElement { fn default() -> (r: Self) ensures r.loc.x == 0, r.loc.y == 0 { TextElement { string: String::new(), loc: Point { x: 0, y: 0 } } } }
-impl Point {
-//@ fn layout21raw/src/geom.rs :: impl Point :: fn new
-//@   ret r
-//@   spec
-//|     ensures r.x == x, r.y == y,
-//@ end
-}
-//@ item layout21utils/src/context.rs :: enum ErrorContext
-//@ end
-/// whole degrees of an angle, as the schema stores them (f64 is opaque to the verifier)
-pub uninterp spec fn whole_degrees(a: f64) -> Option<i32>;
-pub uninterp spec fn degrees_f64(d: i32) -> f64;
-
-// =====================================================================================================
-// SPEC
-// =====================================================================================================
-pub open spec fn same_pt(g: proto::Point, p: Point) -> bool { g.x == p.x && g.y == p.y }
-pub open spec fn same_pts(g: Seq<proto::Point>, p: Seq<Point>) -> bool { g.len() == p.len() && forall|i: int| 0 <= i < p.len() ==> same_pt(#[trigger] g[i], p[i]) }
-/// machine-integer range in which differences of coordinates fit 64 bits
-pub open spec fn small(p: Point) -> bool { -0x2000_0000_0000_0000 <= p.x <= 0x2000_0000_0000_0000 && -0x2000_0000_0000_0000 <= p.y <= 0x2000_0000_0000_0000 }
-pub open spec fn imin(a: int, b: int) -> int { if a <= b { a } else { b } }
-pub open spec fn imax(a: int, b: int) -> int { if a >= b { a } else { b } }
-/// protobuf rectangle `g` is raw rectangle `rc`: lower-left corner, width and height (corners normalised)
-pub open spec fn rect_is(g: proto::Rectangle, rc: Rect) -> bool {
-    &&& g.lower_left is Some &&& g.lower_left->0.x == imin(rc.p0.x as int, rc.p1.x as int) &&& g.lower_left->0.y == imin(rc.p0.y as int, rc.p1.y as int)
-    &&& g.width == imax(rc.p0.x as int, rc.p1.x as int) - imin(rc.p0.x as int, rc.p1.x as int)
-    &&& g.height == imax(rc.p0.y as int, rc.p1.y as int) - imin(rc.p0.y as int, rc.p1.y as int)
-}
-pub open spec fn poly_is(g: proto::Polygon, p: Polygon) -> bool { same_pts(g.vertices@, p.points@) }
-pub open spec fn path_is(g: proto::Path, p: Path) -> bool { same_pts(g.points@, p.points@) && g.width == p.width }
-pub open spec fn shape_small(s: Shape) -> bool { s is Rect ==> small(s->Rect_0.p0) && small(s->Rect_0.p1) }
-/// the exported shape has the same kind and geometry
-pub open spec fn shape_exp(g: ProtoShape, s: Shape) -> bool {
-    match s {
-        Shape::Rect(rc) => g is Rect && rect_is(g->Rect_0, rc),
-        Shape::Polygon(p) => g is Poly && poly_is(g->Poly_0, p),
-        Shape::Path(p) => g is Path && path_is(g->Path_0, p),
-    }
-}
-pub open spec fn pnet(g: ProtoShape) -> Seq<char> { match g { ProtoShape::Rect(r) => r.net@, ProtoShape::Poly(r) => r.net@, ProtoShape::Path(r) => r.net@ } }
-/// the schema stores "no net" as the empty string
-pub open spec fn net_exp(g: Seq<char>, net: Option<String>) -> bool { match net { Some(n) => g == n@, None => g.len() == 0 } }
-
-// =====================================================================================================
-// EXPORTER (layout21raw/src/proto.rs)
-// =====================================================================================================
-// R5: exporter without its `lib: &Library` field
-//@ item layout21raw/src/proto.rs :: struct ProtoExporter
-//@   sub R5 /ProtoExporter<'lib>/ => ProtoExporter
-//@   sub R5 /lib: &'lib Library,/ =>
-//@   sub R4 /\n    ctx:/ => \n    pub ctx:
-//@ end
-impl ProtoExporter {
-    #[verifier::external_body]
-    fn fail<T, M>(&self, msg: M) -> (r: LayoutResult<T>) ensures r is Err { Err(LayoutError { }) }
-//@ fn layout21raw/src/proto.rs :: impl<'lib> ProtoExporter<'lib> :: fn export_point
-//@   ret r
-//@   spec
-//|     ensures r is Ok, same_pt(r->Ok_0, *p),
-//@ end
-    /// ASSUMED element-wise contract of `points.iter().map(|p| self.export_point(p)).collect::<Result<Vec<_>, _>>()?` (rule R6)
-    #[verifier::external_body]
-    fn vp_export_points(&mut self, pts: &Vec<Point>) -> (r: LayoutResult<Vec<proto::Point>>)
-        ensures r is Ok, same_pts(r->Ok_0@, pts@),
-    { unimplemented!() }
-//@ fn layout21raw/src/proto.rs :: impl<'lib> ProtoExporter<'lib> :: fn export_rect
-//@   ret r
-//@   sub R7 /net: ""\.into\(\),/ => net: String::new(),
-//@   spec
-//|     requires small(rect.p0), small(rect.p1),
-//|     ensures r is Ok, rect_is(r->Ok_0, *rect), r->Ok_0.net@.len() == 0,
-//@ end
-//@ fn layout21raw/src/proto.rs :: impl<'lib> ProtoExporter<'lib> :: fn export_polygon
-//@   ret r
-//@   sub R7 /net: ""\.into\(\),/ => net: String::new(),
-//@   sub R6 /poly\s*\.points\s*\.iter\(\)\s*\.map\(\|p\| self\.export_point\(p\)\)\s*\.collect::<Result<Vec<_>, _>>\(\)\?/ => self.vp_export_points(&poly.points)?
-//@   spec
-//|     ensures r is Ok ==> poly_is(r->Ok_0, *poly) && r->Ok_0.net@.len() == 0,
-//@ end
-//@ fn layout21raw/src/proto.rs :: impl<'lib> ProtoExporter<'lib> :: fn export_path
-//@   ret r
-//@   sub R7 /net: ""\.into\(\),/ => net: String::new(),
-//@   sub R6 /path\s*\.points\s*\.iter\(\)\s*\.map\(\|p\| self\.export_point\(p\)\)\s*\.collect::<Result<Vec<_>, _>>\(\)\?/ => self.vp_export_points(&path.points)?
-//@   spec
-//|     ensures r is Ok ==> path_is(r->Ok_0, *path) && r->Ok_0.net@.len() == 0,
-//@ end
-//@ fn layout21raw/src/proto.rs :: impl<'lib> ProtoExporter<'lib> :: fn export_annotation
-//@   ret r
-//@   spec
-//|     ensures r is Ok ==> r->Ok_0.string@ == text.string@ && r->Ok_0.loc is Some && same_pt(r->Ok_0.loc->0, text.loc),
-//@ end
-//@ fn layout21raw/src/proto.rs :: impl<'lib> ProtoExporter<'lib> :: fn export_shape
-//@   ret r
-//@   spec
-//|     requires shape_small(*shape),
-//|     ensures r is Ok ==> shape_exp(r->Ok_0, *shape) && pnet(r->Ok_0).len() == 0,
-//|         shape is Rect ==> r is Ok,
-//@ end
-//@ fn layout21raw/src/proto.rs :: impl<'lib> ProtoExporter<'lib> :: fn export_element
-//@   ret r
-//@   sub R5 /net\.to_string\(\)/ => net.clone()
-//@   spec
-//|     requires shape_small(elem.inner),
-//|     ensures r is Ok ==> shape_exp(r->Ok_0, elem.inner) && net_exp(pnet(r->Ok_0), elem.net),
-//@ end
-//@ fn layout21raw/src/proto.rs :: impl<'lib> ProtoExporter<'lib> :: fn export_and_add_shape
-//@   ret r
-//@   spec
-//|     requires shape_small(*shape),
-//|     ensures r is Ok ==> final(pshapes).layer == old(pshapes).layer && (match *shape {
-//|         // the shape is appended to the list of its own kind; the two other lists are untouched
-//|         Shape::Rect(rc) => final(pshapes).rectangles@.len() == old(pshapes).rectangles@.len() + 1 && final(pshapes).rectangles@.drop_last() == old(pshapes).rectangles@
-//|             && rect_is(final(pshapes).rectangles@.last(), rc) && final(pshapes).polygons@ == old(pshapes).polygons@ && final(pshapes).paths@ == old(pshapes).paths@,
-//|         Shape::Polygon(p) => final(pshapes).polygons@.len() == old(pshapes).polygons@.len() + 1 && final(pshapes).polygons@.drop_last() == old(pshapes).polygons@
-//|             && poly_is(final(pshapes).polygons@.last(), p) && final(pshapes).rectangles@ == old(pshapes).rectangles@ && final(pshapes).paths@ == old(pshapes).paths@,
-//|         Shape::Path(p) => final(pshapes).paths@.len() == old(pshapes).paths@.len() + 1 && final(pshapes).paths@.drop_last() == old(pshapes).paths@
-//|             && path_is(final(pshapes).paths@.last(), p) && final(pshapes).rectangles@ == old(pshapes).rectangles@ && final(pshapes).polygons@ == old(pshapes).polygons@,
-//|     }),
-//@ end
-    /// the float side of export_angle is outside the verifier: ASSUMED contract (whole degrees or an error), see DESIGN
-    #[verifier::external_body]
-    fn export_angle(&mut self, angle: Option<f64>) -> (r: LayoutResult<i32>)
-        ensures match angle { None => r == Ok::<i32, LayoutError>(0), Some(a) => (r is Ok ==> whole_degrees(a) == Some(r->Ok_0)) && (whole_degrees(a) is None ==> r is Err) },
-    { unimplemented!() }
-//@ fn layout21raw/src/proto.rs :: impl<'lib> ProtoExporter<'lib> :: fn export_instance
-//@   ret r
-//@   spec
-//|     ensures r is Ok ==> ({
-//|         let g = r->Ok_0;
-//|         &&& g.name@ == inst.inst_name@ &&& g.reflect_vert == inst.reflect_vert
-//|         &&& g.origin_location is Some && same_pt(g.origin_location->0, inst.loc)
-//|         &&& g.cell is Some && g.cell->0.to is Some && g.cell->0.to->0 is Local && g.cell->0.to->0->Local_0@ == (*inst.cell.v).name@
-//|         // the rotation is exported (whole degrees; zero for none)
-//|         &&& match inst.angle { None => g.rotation_clockwise_degrees == 0, Some(a) => whole_degrees(a) == Some(g.rotation_clockwise_degrees) }
-//|     }),
-//@ end
-}
-
-// =====================================================================================================
-// IMPORTER
-// =====================================================================================================
-/// model of the name -> cell map used read-only by import_reference
-pub struct CellMap { pub m: Vec<Ptr<Cell>> }
-impl CellMap {
-    pub uninterp spec fn lookup(&self, k: Seq<char>) -> Option<Ptr<Cell>>;
-    #[verifier::external_body]
-    pub fn get(&self, k: &String) -> (r: Option<&Ptr<Cell>>)
-        ensures (r is Some) == (self.lookup(k@) is Some), r is Some ==> *r->0 == self.lookup(k@)->0,
-    { unimplemented!() }
-}
-/// model of layout21utils::Unwrapper for Option (Some(t) => Ok(t), None => helper.fail(msg))
-pub trait Unwrapper: Sized {
-    type Ok;
-    spec fn some_spec(&self) -> Option<Self::Ok>;
-    fn unwrapper<M>(self, helper: &ProtoImporter, msg: M) -> (r: Result<Self::Ok, LayoutError>)
-        ensures self.some_spec() is Some ==> r == Ok::<Self::Ok, LayoutError>(self.some_spec()->0), self.some_spec() is None ==> r is Err;
-}
-impl<T> Unwrapper for Option<T> {
-    type Ok = T;
-    open spec fn some_spec(&self) -> Option<T> { *self }
-    #[verifier::external_body]
-    fn unwrapper<M>(self, helper: &ProtoImporter, msg: M) -> (r: Result<T, LayoutError>) { match self { Some(t) => Ok(t), None => Err(LayoutError { }) } }
-}
-// R5: importer reduced to the fields the leaf converters touch
-//@ item layout21raw/src/proto.rs :: struct ProtoImporter
-//@   sub R5 /pub layers: Ptr<Layers>,/ =>
-//@   sub R5 /cell_map: HashMap<String, Ptr<Cell>>,/ => pub cell_map: CellMap,
-//@   sub R5 /lib: Library,/ =>
-//@   sub R4 /\n    ctx:/ => \n    pub ctx:
-//@ end
-/// R11: i32 -> f64 conversion (exact), wrapped because f64 is opaque to the verifier
-#[verifier::external_body]
-pub fn vp_f64_from_i32(d: i32) -> (r: f64) ensures r == degrees_f64(d) { f64::from(d) }
-impl ProtoImporter {
-    #[verifier::external_body]
-    fn fail<T, M>(&self, msg: M) -> (r: LayoutResult<T>) ensures r is Err { Err(LayoutError { }) }
-//@ fn layout21raw/src/proto.rs :: impl ProtoImporter :: fn import_point
-//@   ret r
-//@   spec
-//|     ensures r is Ok, same_pt(*pt, r->Ok_0), final(self).cell_map == old(self).cell_map, final(self).ctx == old(self).ctx,
-//@ end
-    /// ASSUMED element-wise contract of the iterator idiom (rule R6)
-    #[verifier::external_body]
-    fn import_point_vec(&mut self, points: &Vec<proto::Point>) -> (r: LayoutResult<Vec<Point>>)
-        ensures r is Ok, same_pts(points@, r->Ok_0@), final(self).cell_map == old(self).cell_map, final(self).ctx == old(self).ctx,
-    { unimplemented!() }
-//@ fn layout21raw/src/proto.rs :: impl ProtoImporter :: fn import_polygon
-//@   ret r
-//@   spec
-//|     ensures final(self).cell_map == old(self).cell_map, final(self).ctx == old(self).ctx, r is Ok ==> poly_imp(r->Ok_0, *ppoly),
-//@ end
-//@ fn layout21raw/src/proto.rs :: impl ProtoImporter :: fn import_rect
-//@   ret r
-//@   spec
-//|     requires rect_small(*prect),
-//|     ensures final(self).cell_map == old(self).cell_map, final(self).ctx == old(self).ctx, r is Ok ==> rect_imp(r->Ok_0, *prect),
-//|         prect.lower_left is None ==> r is Err,
-//@ end
-//@ fn layout21raw/src/proto.rs :: impl ProtoImporter :: fn import_path
-//@   ret r
-//@   spec
-//|     ensures final(self).cell_map == old(self).cell_map, final(self).ctx == old(self).ctx, r is Ok ==> path_imp(r->Ok_0, *x),
-//|         x.width < 0 ==> r is Err,
-//@ end
-//@ fn layout21raw/src/proto.rs :: impl ProtoImporter :: fn import_annotation
-//@   ret r
-//@   spec
-//|     ensures final(self).cell_map == old(self).cell_map, final(self).ctx == old(self).ctx, r is Ok ==> x.loc is Some && same_pt(x.loc->0, r->Ok_0.loc) && r->Ok_0.string@ == x.string@,
-//|         x.loc is None ==> r is Err,
-//@ end
-//@ fn layout21raw/src/proto.rs :: impl ProtoImporter :: fn import_reference
-//@   ret r
-//@   sub R5 /let cellname: &str = match pref_to/ => let cellname: &String = match pref_to
-//@   spec
-//|     ensures final(self).cell_map == old(self).cell_map, final(self).ctx == old(self).ctx,
-//|         r is Ok ==> pinst.cell is Some && pinst.cell->0.to is Some && pinst.cell->0.to->0 is Local
-//|             && old(self).cell_map.lookup(pinst.cell->0.to->0->Local_0@) == Some(r->Ok_0),
-//|         // a missing reference, an external reference or an undefined cell is an error, not a crash
-//|         (pinst.cell is None || pinst.cell->0.to is None || pinst.cell->0.to->0 is External
-//|             || old(self).cell_map.lookup(pinst.cell->0.to->0->Local_0@) is None) ==> r is Err,
-//@ end
-//@ fn layout21raw/src/proto.rs :: impl ProtoImporter :: fn import_instance
-//@   ret r
-//@   sub R11 /Some\(f64::from\(pinst\.rotation_clockwise_degrees\)\)/ => Some(vp_f64_from_i32(pinst.rotation_clockwise_degrees))
-//@   spec
-//|     ensures final(self).cell_map == old(self).cell_map, r is Ok ==> final(self).ctx@ == old(self).ctx@ && inst_imp(r->Ok_0, *pinst, old(self).cell_map),
-//|         pinst.origin_location is None ==> r is Err,
-//@   before /^        Ok\(inst\)$/
-//|         proof { assert(self.ctx@ =~= old(self).ctx@); }
-//@ end
-    /// model of ProtoImporter::import_layer (looks the (number, purpose) pair up in / adds it to the shared layer table): ASSUMED to be a function of the pair
-    #[verifier::external_body]
-    fn import_layer(&mut self, player: &proto::Layer) -> (r: LayoutResult<(LayerKey, LayerPurpose)>)
-        ensures final(self).cell_map == old(self).cell_map, final(self).ctx == old(self).ctx, r is Ok ==> r->Ok_0 == layer_of(player.number, player.purpose),
-    { unimplemented!() }
-//@ fn layout21raw/src/proto.rs :: impl ProtoImporter :: fn convert_shape
-//@   ret r
-//@   sub R5 /net: &str,/ => net: &String,
-//@   sub R5 /net\.is_empty\(\)/ => vp_str_is_empty(net)
-//@   sub R5 /net\.to_string\(\)/ => net.clone()
-//@   spec
-//|     ensures final(self).cell_map == old(self).cell_map, final(self).ctx == old(self).ctx,
-//|         r is Ok, r->Ok_0.inner == inner, r->Ok_0.layer == layer, r->Ok_0.purpose == purpose, net_imp(r->Ok_0.net, net@),
-//@ end
-//@ fn layout21raw/src/proto.rs :: impl ProtoImporter :: fn import_layer_shapes
-//@   ret r
-//@   sub R6 /for shape in &player\.rectangles \{/ => for shape in player.rectangles.iter() {
-//@   sub R6 /for shape in &player\.polygons \{/ => for shape in player.polygons.iter() {
-//@   sub R6 /for shape in &player\.paths \{/ => for shape in player.paths.iter() {
-//@   spec
-//|     requires layer_small(*player),
-//|     ensures final(self).cell_map == old(self).cell_map,
-//|         r is Ok ==> final(self).ctx@ == old(self).ctx@ && chunk_is(r->Ok_0@, *player),
-//|         player.layer is None ==> r is Err,
-//@   loop 1 iter it
-//|             invariant self.cell_map == old(self).cell_map, self.ctx@ == old(self).ctx@.push(ErrorContext::Geometry), layer_small(*player), player.layer is Some,
-//|                 (layer, purpose) == layer_of(player.layer->0.number, player.layer->0.purpose), it.index@ <= player.rectangles@.len(),
-//|                 elems@.len() == it.index@, forall|i: int| 0 <= i < it.index@ ==> elem_rect(#[trigger] elems@[i], player.rectangles@[i], layer, purpose),
-//@   loop 2 iter it
-//|             invariant self.cell_map == old(self).cell_map, self.ctx@ == old(self).ctx@.push(ErrorContext::Geometry), player.layer is Some,
-//|                 (layer, purpose) == layer_of(player.layer->0.number, player.layer->0.purpose), it.index@ <= player.polygons@.len(),
-//|                 elems@.len() == player.rectangles@.len() + it.index@,
-//|                 forall|i: int| 0 <= i < player.rectangles@.len() ==> elem_rect(#[trigger] elems@[i], player.rectangles@[i], layer, purpose),
-//|                 forall|i: int| 0 <= i < it.index@ ==> elem_poly(#[trigger] elems@[player.rectangles@.len() + i], player.polygons@[i], layer, purpose),
-//@   loop 3 iter it
-//|             invariant self.cell_map == old(self).cell_map, self.ctx@ == old(self).ctx@.push(ErrorContext::Geometry), player.layer is Some,
-//|                 (layer, purpose) == layer_of(player.layer->0.number, player.layer->0.purpose), it.index@ <= player.paths@.len(),
-//|                 elems@.len() == player.rectangles@.len() + player.polygons@.len() + it.index@,
-//|                 forall|i: int| 0 <= i < player.rectangles@.len() ==> elem_rect(#[trigger] elems@[i], player.rectangles@[i], layer, purpose),
-//|                 forall|i: int| 0 <= i < player.polygons@.len() ==> elem_poly(#[trigger] elems@[player.rectangles@.len() + i], player.polygons@[i], layer, purpose),
-//|                 forall|i: int| 0 <= i < it.index@ ==> elem_path(#[trigger] elems@[player.rectangles@.len() + player.polygons@.len() + i], player.paths@[i], layer, purpose),
-//@   before /^        Ok\(elems\)$/
-//|         proof { assert(self.ctx@ =~= old(self).ctx@); }
-//@ end
-}
-/// raw instance `i` is the import of protobuf instance `g`: name, reflection, location, the referenced cell looked up by name, rotation (0 = none)
-pub open spec fn inst_imp(i: Instance, g: proto::Instance, m: CellMap) -> bool {
-    &&& i.inst_name@ == g.name@ &&& i.reflect_vert == g.reflect_vert
-    &&& g.origin_location is Some && same_pt(g.origin_location->0, i.loc)
-    &&& g.cell is Some && g.cell->0.to is Some && g.cell->0.to->0 is Local && m.lookup(g.cell->0.to->0->Local_0@) == Some(i.cell)
-    &&& (g.rotation_clockwise_degrees == 0 ==> i.angle is None)
-    &&& (g.rotation_clockwise_degrees != 0 ==> i.angle == Some(degrees_f64(g.rotation_clockwise_degrees)))
-}
-/// the elements of a layout are the imports of its protobuf layers, layer after layer
-pub open spec fn elems_are(es: Seq<Element>, ls: Seq<proto::LayerShapes>) -> bool decreases ls.len() {
-    if ls.len() == 0 { es.len() == 0 } else {
-        let n = chunk_len(ls.last());
-        es.len() >= n && elems_are(es.take(es.len() - n), ls.drop_last()) && chunk_is(es.skip(es.len() - n), ls.last())
-    }
-}
-pub open spec fn layers_small(ls: Seq<proto::LayerShapes>) -> bool { forall|i: int| 0 <= i < ls.len() ==> layer_small(#[trigger] ls[i]) }
-/// model of `Vec::extend(Vec)` (rule R6): appends the elements in order
-#[verifier::external_body]
-pub fn vp_extend_elems(v: &mut Vec<Element>, w: Vec<Element>) ensures final(v)@ == old(v)@ + w@ { v.extend(w) }
-impl Default for Layout { fn default() -> (r: Self) ensures r.name@.len() == 0, r.insts@.len() == 0, r.elems@.len() == 0, r.annotations@.len() == 0 { Layout { name: String::new(), insts: Vec::new(), elems: Vec::new(), annotations: Vec::new() } } }
-impl ProtoImporter {
-//@ fn layout21raw/src/proto.rs :: impl ProtoImporter :: fn import_layout
-//@   ret r
-//@   sub R6 /for inst in &playout\.instances \{/ => for inst in playout.instances.iter() {
-//@   sub R6 /for s in &playout\.shapes \{/ => for s in playout.shapes.iter() {
-//@   sub R6 /for txt in &playout\.annotations \{/ => for txt in playout.annotations.iter() {
-//@   sub R6 /cell\.elems\.extend\(self\.import_layer_shapes\(s\)\?\);/ => vp_extend_elems(&mut cell.elems, self.import_layer_shapes(s)?);
-//@   spec
-//|     requires layers_small(playout.shapes@),
-//|     ensures final(self).cell_map == old(self).cell_map,
-//|         r is Ok ==> ({
-//|             let c = r->Ok_0;
-//|             &&& final(self).ctx@ == old(self).ctx@ &&& c.name@ == playout.name@
-//|             // one instance per protobuf instance, in order
-//|             &&& c.insts@.len() == playout.instances@.len() &&& forall|i: int| 0 <= i < playout.instances@.len() ==> inst_imp(#[trigger] c.insts@[i], playout.instances@[i], old(self).cell_map)
-//|             // every shape of every layer, in order
-//|             &&& elems_are(c.elems@, playout.shapes@)
-//|             // one annotation per protobuf text, in order
-//|             &&& c.annotations@.len() == playout.annotations@.len()
-//|             &&& forall|i: int| 0 <= i < playout.annotations@.len() ==> (#[trigger] playout.annotations@[i]).loc is Some && same_pt(playout.annotations@[i].loc->0, c.annotations@[i].loc) && c.annotations@[i].string@ == playout.annotations@[i].string@
-//|         }),
-//@   loop 1 iter it
-//|             invariant self.cell_map == old(self).cell_map, self.ctx@ == old(self).ctx@.push(ErrorContext::Impl), layers_small(playout.shapes@), cell.name@ == playout.name@,
-//|                 cell.elems@.len() == 0, cell.annotations@.len() == 0, cell.insts@.len() == it.index@, it.index@ <= playout.instances@.len(),
-//|                 forall|i: int| 0 <= i < it.index@ ==> inst_imp(#[trigger] cell.insts@[i], playout.instances@[i], self.cell_map),
-//@   loop 2 iter it
-//|             invariant self.cell_map == old(self).cell_map, self.ctx@ == old(self).ctx@.push(ErrorContext::Impl), layers_small(playout.shapes@), cell.name@ == playout.name@,
-//|                 cell.annotations@.len() == 0, cell.insts@.len() == playout.instances@.len(), it.index@ <= playout.shapes@.len(),
-//|                 forall|i: int| 0 <= i < playout.instances@.len() ==> inst_imp(#[trigger] cell.insts@[i], playout.instances@[i], self.cell_map),
-//|                 elems_are(cell.elems@, playout.shapes@.take(it.index@ as int)),
-//@   before /vp_extend_elems\(&mut cell\.elems/
-//|             let ghost e0 = cell.elems@;
-//@   loopend 2
-//|             proof {
-//|                 let t1 = playout.shapes@.take(it.index@ + 1); let n = chunk_len(*s);
-//|                 assert(t1.drop_last() == playout.shapes@.take(it.index@ as int)); assert(t1.last() == *s);
-//|                 assert(cell.elems@.len() == e0.len() + n);
-//|                 assert(cell.elems@.take(cell.elems@.len() - n) =~= e0);
-//|                 assert(chunk_is(cell.elems@.skip(cell.elems@.len() - n), *s)) by { assert(cell.elems@.skip(cell.elems@.len() - n) =~= cell.elems@.skip(e0.len() as int)); }
-//|             }
-//@   loop 3 iter it
-//|             invariant self.cell_map == old(self).cell_map, self.ctx@ == old(self).ctx@.push(ErrorContext::Impl), cell.name@ == playout.name@,
-//|                 cell.insts@.len() == playout.instances@.len(), it.index@ <= playout.annotations@.len(), cell.annotations@.len() == it.index@,
-//|                 forall|i: int| 0 <= i < playout.instances@.len() ==> inst_imp(#[trigger] cell.insts@[i], playout.instances@[i], self.cell_map),
-//|                 elems_are(cell.elems@, playout.shapes@),
-//|                 forall|i: int| 0 <= i < it.index@ ==> (#[trigger] playout.annotations@[i]).loc is Some && same_pt(playout.annotations@[i].loc->0, cell.annotations@[i].loc) && cell.annotations@[i].string@ == playout.annotations@[i].string@,
-//@   before /for txt in playout\.annotations\.iter\(\) \{/
-//|         proof { assert(playout.shapes@.take(playout.shapes@.len() as int) == playout.shapes@); }
-//@   before /^        Ok\(cell\)$/
-//|         proof { assert(self.ctx@ =~= old(self).ctx@); }
-//@ end
-}
-/// R5: `str::is_empty` on a String's contents
-#[verifier::external_body]
-pub fn vp_str_is_empty(s: &String) -> (r: bool) ensures r == (s@.len() == 0) { s.is_empty() }
-/// the (LayerKey, LayerPurpose) the shared layer table gives a (number, purpose) pair — assumption (import_layer is modelled)
-pub uninterp spec fn layer_of(number: i64, purpose: i64) -> (LayerKey, LayerPurpose);
-/// the empty string means "no net"
-pub open spec fn net_imp(net: Option<String>, g: Seq<char>) -> bool { if g.len() == 0 { net is None } else { net is Some && net->0@ == g } }
-pub open spec fn rect_small(g: proto::Rectangle) -> bool {
-    (g.lower_left is Some ==> (-0x2000_0000_0000_0000 <= g.lower_left->0.x <= 0x2000_0000_0000_0000 && -0x2000_0000_0000_0000 <= g.lower_left->0.y <= 0x2000_0000_0000_0000))
-    && -0x2000_0000_0000_0000 <= g.width <= 0x2000_0000_0000_0000 && -0x2000_0000_0000_0000 <= g.height <= 0x2000_0000_0000_0000
-}
-pub open spec fn layer_small(l: proto::LayerShapes) -> bool { forall|i: int| 0 <= i < l.rectangles@.len() ==> rect_small(#[trigger] l.rectangles@[i]) }
-/// raw rectangle from a protobuf one: p0 the lower-left corner, p1 = p0 + (width, height)
-pub open spec fn rect_imp(s: Shape, g: proto::Rectangle) -> bool {
-    match s { Shape::Rect(rc) => g.lower_left is Some && same_pt(g.lower_left->0, rc.p0) && rc.p1.x == rc.p0.x + g.width && rc.p1.y == rc.p0.y + g.height, _ => false }
-}
-pub open spec fn poly_imp(s: Shape, g: proto::Polygon) -> bool { match s { Shape::Polygon(p) => same_pts(g.vertices@, p.points@), _ => false } }
-pub open spec fn path_imp(s: Shape, g: proto::Path) -> bool { match s { Shape::Path(p) => same_pts(g.points@, p.points@) && p.width == g.width && g.width >= 0, _ => false } }
-pub open spec fn elem_rect(e: Element, g: proto::Rectangle, k: LayerKey, p: LayerPurpose) -> bool { e.layer == k && e.purpose == p && net_imp(e.net, g.net@) && rect_imp(e.inner, g) }
-pub open spec fn elem_poly(e: Element, g: proto::Polygon, k: LayerKey, p: LayerPurpose) -> bool { e.layer == k && e.purpose == p && net_imp(e.net, g.net@) && poly_imp(e.inner, g) }
-pub open spec fn elem_path(e: Element, g: proto::Path, k: LayerKey, p: LayerPurpose) -> bool { e.layer == k && e.purpose == p && net_imp(e.net, g.net@) && path_imp(e.inner, g) }
-pub open spec fn chunk_len(l: proto::LayerShapes) -> int { (l.rectangles@.len() + l.polygons@.len() + l.paths@.len()) as int }
-/// `es` is the import of one protobuf layer: its rectangles, then its polygons, then its paths, each on the layer's key and purpose with its own net
-pub open spec fn chunk_is(es: Seq<Element>, l: proto::LayerShapes) -> bool {
-    &&& l.layer is Some &&& es.len() == chunk_len(l)
-    &&& forall|i: int| 0 <= i < l.rectangles@.len() ==> elem_rect(#[trigger] es[i], l.rectangles@[i], layer_of(l.layer->0.number, l.layer->0.purpose).0, layer_of(l.layer->0.number, l.layer->0.purpose).1)
-    &&& forall|i: int| 0 <= i < l.polygons@.len() ==> elem_poly(#[trigger] es[l.rectangles@.len() + i], l.polygons@[i], layer_of(l.layer->0.number, l.layer->0.purpose).0, layer_of(l.layer->0.number, l.layer->0.purpose).1)
-    &&& forall|i: int| 0 <= i < l.paths@.len() ==> elem_path(#[trigger] es[l.rectangles@.len() + l.polygons@.len() + i], l.paths@[i], layer_of(l.layer->0.number, l.layer->0.purpose).0, layer_of(l.layer->0.number, l.layer->0.purpose).1)
-}
-/// C14 (shapes): export then import gives the same point lists; a rectangle comes back with its corners normalised (p0 = lower-left, p1 = upper-right)
-proof fn lemma_pts_roundtrip(p: Seq<Point>, g: Seq<proto::Point>, q: Seq<Point>) requires same_pts(g, p), same_pts(g, q) ensures p =~= q {
-    assert forall|i: int| 0 <= i < p.len() implies p[i] == q[i] by { assert(same_pt(g[i], p[i]) && same_pt(g[i], q[i])); }
-}
-
+//@ include units/raw_proto/proto.inc.rs
 proof fn canary_same_pts(g: Seq<proto::Point>, p: Seq<Point>) requires same_pts(g, p), p.len() == 2 ensures false {}
 }
 fn main() {}
